@@ -156,6 +156,10 @@ def c17_isolation(ai, bi):
     b1 = TexSoup(B)
     s1 = doc_shape(b1)
     x1 = SX.raw(str(b1))
+    try:
+        TexSoup(A, skip_envs=('e', 'itemize', 'c'))       # options of one parse must not leak into the next
+    except Exception:
+        pass
     a = TexSoup(A)
     edit_all(a)
     b2 = TexSoup(B)
